@@ -74,6 +74,16 @@ func c20Gen(rng *verifsim.RNG, idx int, tier string) *Plan {
 			if rng.Bool(0.3) {
 				st.StopLag = int64(rng.Dur(time.Millisecond, 3*time.Second)) // slow to stop
 			}
+			// no two scripted timers in exactly the same instant (timer ties are the runtime's to break)
+			if st.ReadyAt >= 0 {
+				st.ReadyAt += int64(i) * 5
+			}
+			if st.FailAt >= 0 {
+				st.FailAt += int64(i) * 7
+			}
+			if st.NilAt >= 0 {
+				st.NilAt += int64(i) * 11
+			}
 			n.Script = append(n.Script, st)
 		}
 		if n.OnlyScript && rng.Bool(0.4) {
